@@ -34,6 +34,8 @@ type c06Input struct {
 	Spec   *TableSpec `json:"spec,omitempty"`
 	// store histories (op "savehist") and refreshes of derived objects over an existing state (op "refresh")
 	Ops       []c06StoreOp `json:"ops,omitempty"`
+	// a table profile value (op "profileobj")
+	Profile *c06ProfileObj `json:"profile,omitempty"`
 	Mode      string       `json:"mode,omitempty"`
 	StaleSpec *TableSpec   `json:"staleSpec,omitempty"`
 }
@@ -431,6 +433,9 @@ func runC06(ctx *Ctx) {
 	if ctx.Idx%16 == 9 {
 		t := GenTable(r, 1+r.Intn(4), 1+r.Intn(300), []int{0}, 0)
 		ctx.Emit("profile", c06Input{Spec: t}, c06Profile(t), true)
+		// … and a profile VALUE with arbitrary field contents (drawn after the case above)
+		po, tags := c06GenProfileObj(r)
+		ctx.Emit("profileobj", c06Input{Profile: po}, c06ProfileObjRun(po), len(po.Columns) > 0, tags...)
 		return
 	}
 	switch ctx.Idx % 8 {
@@ -539,6 +544,10 @@ func corpusC06(ctx *Ctx, op string, raw json.RawMessage) {
 			rows[i] = unhexStrs(r)
 		}
 		ctx.Emit(op, in, c06BlockIndex(rows, in.PKIdx), true, "corpus")
+	case "profileobj":
+		if in.Profile != nil {
+			ctx.Emit(op, in, c06ProfileObjRun(in.Profile), true, "corpus")
+		}
 	case "profile":
 		if in.Spec != nil {
 			ctx.Emit(op, in, c06Profile(in.Spec), true, "corpus")
